@@ -30,6 +30,7 @@ type Env struct {
 	depth       int
 	loop          *loopInfo // loop whose invariant is being evaluated
 	inOld         bool
+	prevSt        *State // step clauses: the state prev(e) is evaluated in
 	wantAddr      bool // lookupLocal returns the address of a heap local instead of its value
 	scopeTolerant bool // a name that is not in scope raises notInScope (caught by atCallChecks) instead of unsupported
 	live          *Env // the environment outside old()
@@ -289,6 +290,14 @@ func (e *Env) eval(x Expr) tv {
 					if p, isT := r.v.(*Term); isT && p.Sort == SPtr {
 						return r
 					}
+				}
+			}
+			if id, isId := x.X.(*EIdent); isId && e.fr != nil {
+				// a local whose address is never taken by the code: no pointer the code
+				// holds can be equal to its address
+				if r, ok := e.lookupLocalQuiet(id.Name); ok && r.t != nil {
+					ref := u.newRef(e.st, "addr_of_"+id.Name)
+					return tv{mkptr(ref, IntLit(0)), types.NewPointer(r.t)}
 				}
 			}
 			e.outOfScope("&" + exprString(x.X) + ": not a heap-allocated local variable in scope")
@@ -609,6 +618,11 @@ func (e *Env) binary(x *EBin) tv {
 		}
 		return tv{Mul(a, u.pow2(e.st, b)), rt}
 	}
+	if name, ok := map[string]string{"&": "bitand", "|": "bitor", "^": "bitxor", "&^": "bitandnot"}[x.Op]; ok && a.Sort == SInt && b.Sort == SInt {
+		// the same uninterpreted bit operations the code's operators denote on mathematical integers
+		f := u.ctx.Func(name, []Sort{SInt, SInt}, SInt)
+		return tv{App(SInt, f, a, b), rt}
+	}
 	e.fail("operator %s unsupported on %s", x.Op, a.Sort)
 	return tv{}
 }
@@ -641,6 +655,15 @@ func (e *Env) selector(x *ESel) tv {
 					if p := u.prog.pkgByName(e.pkgPath, id.Name); p != nil {
 						if c, ok := p.Scope().Lookup(x.Name).(*types.Const); ok {
 							return tv{u.constVal(ssa.NewConst(c.Val(), c.Type())), c.Type()}
+						}
+						// qualified package-level variable: its current value
+						if v, ok := p.Scope().Lookup(x.Name).(*types.Var); ok {
+							if sp := u.prog.ssaPkgs[p.Path()]; sp != nil {
+								if g, ok := sp.Members[x.Name].(*ssa.Global); ok {
+									gp := u.val(nil, e.st, g).(*Term)
+									return tv{u.loadVal(e.st, v.Type(), gp), v.Type()}
+								}
+							}
 						}
 					}
 				}
@@ -845,6 +868,16 @@ func (e *Env) callExpr(x *ECall) tv {
 		if !e.inOld {
 			sub.live = e
 		}
+		return sub.eval(x.Args[0])
+	case "prev":
+		// prev(e) in a loop step clause: e at the head of the iteration that just ended
+		// (heap and local variables of that state)
+		if len(x.Args) != 1 || e.prevSt == nil {
+			e.fail("prev(e) is only meaningful in a loop `step` clause")
+		}
+		sub := *e
+		sub.st = e.prevSt
+		sub.prevSt = nil
 		return sub.eval(x.Args[0])
 	case "len":
 		r := e.eval(x.Args[0])
@@ -1068,6 +1101,41 @@ func (e *Env) callExpr(x *ECall) tv {
 	}
 	if sf, ok := u.prog.specs.SpecFns[x.Fn]; ok {
 		return e.specCall(sf, x.Args)
+	}
+	// a function of the package that is declared `flag function`: the same uninterpreted
+	// function of its arguments that a call in the code denotes
+	if key := qualify(x.Fn, e.pkgPath); u.prog.specs.Contracts[key] != nil && u.prog.specs.Contracts[key].Flags["function"] != "" {
+		if fn := u.prog.funcs[key]; fn != nil && fn.Signature.Results().Len() == 1 {
+			var as []*Term
+			var sorts []Sort
+			var flat func(a Val)
+			flat = func(a Val) {
+				switch v := a.(type) {
+				case *Term:
+					as = append(as, v)
+					sorts = append(sorts, v.Sort)
+				case *StructVal:
+					for _, f := range v.Fields {
+						flat(f)
+					}
+				default:
+					e.fail("function %s: scalar arguments expected", x.Fn)
+				}
+			}
+			for i, a := range x.Args {
+				r := e.eval(a)
+				if t, isT := r.v.(*Term); isT && i < fn.Signature.Params().Len() {
+					// untyped constants take the parameter's sort
+					if want, scalar := u.sortOf(fn.Signature.Params().At(i).Type()); scalar && want != t.Sort {
+						r.v = u.convert(e.st, t, r.t0(), fn.Signature.Params().At(i).Type())
+					}
+				}
+				flat(r.v)
+			}
+			rt := fn.Signature.Results().At(0).Type()
+			rsort, _ := u.sortOf(rt)
+			return tv{App(rsort, u.ctx.Func("fn!"+key, sorts, rsort), as...), rt}
+		}
 	}
 	e.fail("unknown function %s in contract", x.Fn)
 	return tv{}
@@ -1388,6 +1456,27 @@ func (p *Program) parseType(s string, pkgPath string) types.Type {
 
 // pkgByName: package imported under name by pkgPath (or any loaded package with that name).
 func (p *Program) pkgByName(pkgPath, name string) *types.Package {
+	// an import alias used by one of the package's files (v11 "…/common/v1")
+	if pk := p.pkgs[pkgPath]; pk != nil {
+		for _, f := range pk.Syntax {
+			for _, im := range f.Imports {
+				if im.Name != nil && im.Name.Name == name {
+					if path, err := strconv.Unquote(im.Path.Value); err == nil {
+						if tp := p.typesPkgs[path]; tp != nil {
+							return tp
+						}
+						if tp := p.typesPkgs[pkgPath]; tp != nil {
+							for _, imp := range tp.Imports() {
+								if imp.Path() == path {
+									return imp
+								}
+							}
+						}
+					}
+				}
+			}
+		}
+	}
 	if tp := p.typesPkgs[pkgPath]; tp != nil {
 		for _, imp := range tp.Imports() {
 			if imp.Name() == name {
